@@ -68,6 +68,9 @@ def find_break_point(line, max_index, key_list):
     first_non_whitespace = len(line) - len(line.lstrip())
     for key in key_list:
         idx = line.rfind(key, first_non_whitespace+1, max_index)
+        while key == "=" and idx > 0 and line[idx+1:idx+2] in ("=", ">"):
+            # Never break between the two characters of "==" or "=>".
+            idx = line.rfind(key, first_non_whitespace+1, idx)
         if idx > 0:
             return idx+len(key)
     raise InternalError(
